@@ -108,6 +108,13 @@ def fn_of_line(meta, file, line):
     return None
 
 
+def unit_of_fn(meta, fn):
+    for f in meta["functions"]:
+        if f["fn"] == fn:
+            return f.get("unit") or meta["unit"]
+    return meta["unit"]
+
+
 def classify(meta, res):
     """-> (failures, tool_errors, rlimit_hits, warnings)"""
     gen = os.path.basename(meta["out"])
@@ -159,13 +166,14 @@ def classify(meta, res):
                 # vstd's panic/unreachable/expect/index specs: the secondary span is inside vstd
                 callee_clause = "std"
         site = loc.get("snippet", "")
+        du = unit_of_fn(meta, owner_fn)
         if kind in ("ensures", "invariant", "invariant-entry", "invariant-preserve") and clause:
-            oid = "%s/%s/%s:%s" % (meta["unit"], owner_fn, kind, clause)
+            oid = "%s/%s/%s:%s" % (du, owner_fn, kind, clause)
         elif kind == "requires":
-            oid = "%s/%s/requires:%s@%s" % (meta["unit"], owner_fn, callee_clause, site[:60])
+            oid = "%s/%s/requires:%s@%s" % (du, owner_fn, callee_clause, site[:60])
         else:
-            oid = "%s/%s/%s@%s" % (meta["unit"], owner_fn, kind, site[:60])
-        failures.append(dict(id=oid, kind=kind, fn=owner_fn, clause=clause, callee_clause=callee_clause,
+            oid = "%s/%s/%s@%s" % (du, owner_fn, kind, site[:60])
+        failures.append(dict(id=oid, def_unit=du, kind=kind, fn=owner_fn, clause=clause, callee_clause=callee_clause,
                              message=msg, where=loc, rendered=d.get("rendered", "")[:4000]))
     return failures, tool_errors, rlimits
 
@@ -329,6 +337,44 @@ def load_known():
 
 
 # ----------------------------------------------------------------------------- main check
+def own(meta, x):
+    return (x.get("unit") or meta["unit"]) == meta["unit"]
+
+
+def obligation_list(meta):
+    """named obligations defined by this unit (not by included units)"""
+    u = meta["unit"]
+    obs = []
+    for c in meta["clauses"]:
+        if own(meta, c):
+            obs.append("%s/%s/%s:%s" % (u, c["fn"], c["kind"], c["clause"]))
+    for f in meta["functions"]:
+        if own(meta, f) and f["has_body"]:
+            obs.append("%s/%s/body(termination+panic-freedom+callee-preconditions)" % (u, f["fn"]))
+    for i, sx in enumerate(meta["panic_sites"]):
+        if own(meta, sx):
+            obs.append("%s/%s/panic-site:%s@%s:%d" % (u, sx["fn"], sx["site"], sx["file"], sx["line"]))
+    for l in meta["lemmas"]:
+        if l["own"]:
+            obs.append("%s/prelude/lemma:%s" % (u, l["name"]))
+    return obs
+
+
+def failed_obligation_keys(meta, f):
+    """which entries of obligation_list a Verus failure knocks out"""
+    u = f.get("def_unit") or meta["unit"]
+    keys = []
+    fn = f.get("fn") or ""
+    if fn.startswith("prelude:"):
+        keys.append("%s/prelude/*" % u)
+        return keys
+    if f["kind"] in ("ensures", "invariant", "invariant-entry", "invariant-preserve") and f.get("clause"):
+        kind = "ensures" if f["kind"] == "ensures" else "invariant"
+        keys.append("%s/%s/%s:%s" % (u, fn, kind, f["clause"]))
+    keys.append("%s/%s/body(termination+panic-freedom+callee-preconditions)" % (u, fn))
+    return keys
+
+
 def check(pid, tier, seed, rebaseline=False):
     t0 = time.time()
     units = available_units(pid)
@@ -344,10 +390,10 @@ def check(pid, tier, seed, rebaseline=False):
     undecided, violations, notes = [], [], []
     known, _fixed = load_known()
     known_hit = []
-    obligations = discharged = 0
+    all_obs, failed_keys = [], set()
     samples, fn_rows, trusted = [], [], []
     rewrites = {}
-    bounded = []
+    seen_fail_ids = set()
     for u in units:
         r = results[u]
         if r["status"] in ("extract-error",):
@@ -359,12 +405,11 @@ def check(pid, tier, seed, rebaseline=False):
             continue
         meta = r["meta"]
         for k, v in meta["rewrites"].items():
-            rewrites[k] = rewrites.get(k, 0) + v
-        b = base.get(u)
+            rewrites[k] = max(rewrites.get(k, 0), v)
         rec = unit_baseline_record(r)
         if rebaseline:
             base[u] = rec
-            b = rec
+        b = base.get(u)
         if b is None:
             undecided.append("%s: no baseline recorded (run --rebaseline on the unchanged tree)" % u)
             continue
@@ -379,57 +424,59 @@ def check(pid, tier, seed, rebaseline=False):
         if newtrust:
             undecided.append("%s: new unchecked assumption in generated file: %s" % (u, sorted(newtrust)[:2]))
             continue
-        trusted += ["%s: %s" % (u, t) for t in rec["trust"]]
-        # rlimit: retry whole unit once with more resources
+        trusted += rec["trust"]
         fails = list(r["failures"])
         if r["status"] == "rlimit" or fails:
+            # second opinion: 4x resources, another z3 seed
             r2 = run_unit(u, tag="retry", seed=(seed or 0) + 1, rlimit=RLIMIT_RETRY)
-            if r2["status"] in ("ok",):
-                notes.append("%s: first attempt failed (%s), verified on retry with rlimit %d" % (u, r["status"], RLIMIT_RETRY))
-                r = r2
-                fails = []
+            if r2["status"] == "ok":
+                notes.append("%s: first attempt %s, verified on retry with rlimit %d" % (u, r["status"], RLIMIT_RETRY))
+                r, fails = r2, []
             elif r2["status"] == "failed":
-                ids2 = {f["id"] for f in r2["failures"]}
-                fails = [f for f in r2["failures"]]
-                r = r2
+                r, fails = r2, list(r2["failures"])
             elif r2["status"] == "rlimit":
-                undecided.append("%s: solver resource limit even at rlimit %d: %s" % (u, RLIMIT_RETRY, r2["rlimits"][:1]))
+                undecided.append("%s: solver resource limit even at rlimit %d: %s" % (u, RLIMIT_RETRY, [x["message"] for x in r2["rlimits"][:1]]))
                 continue
             else:
                 undecided.append("%s: retry ended in %s" % (u, r2["status"]))
                 continue
-        nclauses = len(meta["clauses"])
-        nsites = len(meta["panic_sites"])
-        obligations += r["verified"] + r["errors"] + nclauses + nsites
-        failed_here = 0
+            results[u] = r
+        obs = obligation_list(meta)
+        all_obs += obs
         for f in fails:
-            owners = owner_of(units, meta, f)
             f["unit"] = u
+            for k in failed_obligation_keys(meta, f):
+                failed_keys.add(k)
+            if f["id"] in seen_fail_ids:
+                continue
+            seen_fail_ids.add(f["id"])
+            owners = owner_of(units, meta, f)
             kf = [k for k in known if k["obligation"] == f["id"]]
             if kf:
                 for k in kf:
                     if k["property"] == pid:
                         known_hit.append((k, f))
-                failed_here += 1
                 continue
             if f["id"] in b.get("failing", []):
-                # failing on the baseline tree and not a listed finding: the check itself is broken
+                # fails on the baseline tree too and is not a listed finding: the check itself is broken
                 undecided.append("%s: obligation %s fails on the baseline too and is not a known finding" % (u, f["id"]))
                 continue
-            failed_here += 1
             if pid in owners:
                 violations.append(f)
             else:
-                notes.append("obligation %s (owned by %s) fails; not counted for %s" % (f["id"], ",".join(owners), pid))
-        discharged += max(0, r["verified"] + nclauses + nsites - failed_here)
+                notes.append("obligation %s (owned by %s) fails; it is reported by that property's check, not by %s" % (f["id"], ",".join(owners), pid))
         for fnname, e in sorted(r["breakdown"].items()):
             fn_rows.append(dict(unit=u, function=fnname, z3_us=e["time_us"], rlimit=e["rlimit"], ok=e["success"]))
-        for c in meta["clauses"][:400]:
-            samples.append("%s/%s/%s:%s  ::  %s" % (u, c["fn"], c["kind"], c["clause"], " ".join(c["text"].split())[:160]))
+        for c in meta["clauses"]:
+            if own(meta, c):
+                samples.append("%s/%s/%s:%s  ::  %s" % (u, c["fn"], c["kind"], c["clause"], " ".join(c["text"].split())[:200]))
     if rebaseline:
         os.makedirs(os.path.dirname(baseline_path()), exist_ok=True)
         json.dump(base, open(baseline_path(), "w"), indent=1, sort_keys=True)
         print("baseline written for", units)
+    obligations = len(all_obs)
+    undis = [o for o in all_obs if o in failed_keys or any(k.endswith("/*") and o.startswith(k[:-1]) for k in failed_keys)]
+    discharged = obligations - len(undis)
     # canaries (vacuity): a contradictory precondition/assumption would make `ensures false` provable
     canary_rows = []
     if not undecided:
@@ -440,13 +487,15 @@ def check(pid, tier, seed, rebaseline=False):
         with concurrent.futures.ThreadPoolExecutor(max_workers=8) as ex:
             futs = [(u, cn, ex.submit(run_unit, u, "canary/" + hashlib.md5(cn.encode()).hexdigest()[:6], None, cn)) for u, cn in jobs]
             for u, cn, fu in futs:
-                rc = fu.result()
-                hit = [f for f in rc.get("failures", []) if f.get("clause") == "CANARY"]
+                rc_ = fu.result()
+                hit = [f for f in rc_.get("failures", []) if f.get("clause") == "CANARY"]
                 canary_rows.append(dict(unit=u, fn=cn, rejected=bool(hit)))
                 if not hit:
-                    undecided.append("%s: canary `ensures false` on %s was NOT rejected (status %s): contracts are vacuous" % (u, cn, rc["status"]))
+                    undecided.append("%s: canary `ensures false` on %s was NOT rejected (status %s): contracts are vacuous" % (u, cn, rc_["status"]))
+    if obligations == 0:
+        undecided.append("zero obligations generated")
     ev_extra = {}
-    if tier == "thorough" and not undecided:
+    if tier == "thorough" and not undecided and not violations:
         import thorough
         extra_und, extra_notes, ev_extra = thorough.run(pid, units, results, seed)
         undecided += extra_und
@@ -458,12 +507,10 @@ def check(pid, tier, seed, rebaseline=False):
     for k, f in known_hit:
         print("KNOWN-FINDING: property=%s %s -- %s" % (pid, k["obligation"], k["input"]))
     rc = 0
-    replay_paths = []
     if violations:
         import replay as RP
         for f in violations:
             path, found = RP.make_replay(pid, f, results[f["unit"]])
-            replay_paths.append(path)
             print("VIOLATION property=%s replay=%s%s" % (pid, path, "" if found else " no-failing-input-found"))
             print("  obligation: %s" % f["id"])
             print("  %s" % f["message"])
@@ -473,7 +520,7 @@ def check(pid, tier, seed, rebaseline=False):
             print("UNDECIDED:", x)
         rc = 2
     write_evidence(pid, tier, seed, wall, obligations, discharged, results, units, trusted, samples, fn_rows,
-                   rewrites, canary_rows, violations, known_hit, undecided, notes, ev_extra)
+                   rewrites, canary_rows, violations, known_hit, undecided, notes, ev_extra, undis)
     print("%s: %s  (%d obligations, %d discharged, %d units, %.1fs)" %
           (pid, {0: "HOLDS on everything under contract", 1: "VIOLATED", 2: "UNDECIDED"}[rc], obligations, discharged, len(units), wall))
     return rc
@@ -491,7 +538,7 @@ def load_assumptions(pid):
 
 
 def write_evidence(pid, tier, seed, wall, obligations, discharged, results, units, trusted, samples, fn_rows,
-                   rewrites, canary_rows, violations, known_hit, undecided, notes, extra):
+                   rewrites, canary_rows, violations, known_hit, undecided, notes, extra, undis=()):
     fns = []
     sites = []
     for u in units:
@@ -499,8 +546,12 @@ def write_evidence(pid, tier, seed, wall, obligations, discharged, results, unit
         if "meta" not in r:
             continue
         for f in r["meta"]["functions"]:
+            if not own(r["meta"], f):
+                continue
             fns.append("%s %s:%d %s%s" % (u, f["file"], f["line"], f["fn"], "" if f["contract"] else " (no contract: panic-freedom/termination only)"))
         for s in r["meta"]["panic_sites"]:
+            if not own(r["meta"], s):
+                continue
             sites.append("%s:%d %s in %s" % (s["file"], s["line"], s["site"], s["fn"]))
     cov = dict(
         obligations=obligations,
@@ -519,8 +570,9 @@ def write_evidence(pid, tier, seed, wall, obligations, discharged, results, unit
         samples=samples[:60],
         known_findings=[k["line"] for k, _ in known_hit],
         undecided=undecided,
+        undischarged=list(undis),
         notes=notes,
-        obligation_count_rule="per unit: Verus function-level queries (verified+errors) + named contract clauses spliced (requires/ensures/invariant/decreases) + panic sites (unreachable!/expect/unwrap/index) inside extracted bodies; discharged = the same minus failed ones",
+        obligation_count_rule="named obligations, each counted once in the unit that defines it: contract clauses spliced into the real code (requires/ensures/invariant/decreases), one body obligation per extracted function (termination, panic-freedom, callee preconditions, overflow), each panic site (unreachable!/expect/unwrap/index) inside extracted bodies, each prelude lemma; discharged = those not hit by a Verus error on this run",
     )
     cov.update(extra or {})
     ev = dict(property_id=pid, tier=tier, seed=seed or 0, level="proof", coverage=cov,
